@@ -139,6 +139,41 @@ def check_group_history(arg):
     return fails, 1
 
 
+def check_group_rename(arg):
+    """ask, then point an entry (or its address) at ANOTHER group, or at a plain address, by reassigning the text: nothing of the previous group's members
+    may take part in the next answer (the new group's members were never given: it denotes no address until they are)"""
+    import cisco_acl
+    platform, route, side = arg
+    g = "object-group" if platform == "ios" else "addrgroup"
+    member = "10.0.0.0 0.0.0.255" if platform == "ios" else "10.0.0.0/24"
+    host = "host 10.0.0.1" if platform == "ios" else "10.0.0.1/32"
+    mk = (lambda a: f"permit ip {a} any") if side == "src" else (lambda a: f"permit ip any {a}")
+    top = cisco_acl.Ace(mk(f"{g} A"), platform=platform)
+    addr = getattr(top, side + "addr")
+    addr.items = [cisco_acl.Address(member, platform=platform)]
+    bot = cisco_acl.Ace(mk(host), platform=platform)
+    fails = []
+    first = bot.shadow_of(top)
+    if route == "ace.line":
+        top.line = mk(f"{g} B")
+    elif route == "addr.line":
+        getattr(top, side + "addr").line = f"{g} B"
+    elif route == "addr.line-plain":
+        getattr(top, side + "addr").line = "10.9.0.0 0.0.0.255" if platform == "ios" else "10.9.0.0/24"
+    elif route == "ace.line-plain":
+        top.line = mk("10.9.0.0 0.0.0.255" if platform == "ios" else "10.9.0.0/24")
+    got = bot.shadow_of(top)
+    left = [m.line for m in getattr(top, side + "addr").items]
+    if not first:
+        fails.append(("setup", f"{mk(host)!r} not reported under {mk(g + ' A')!r} with member {member}"))
+    if got or left:
+        fails.append(("stale-members", f"{platform}: after `{route}` pointed the {side} address of {mk(g + ' A')!r} at {top.line!r}, it still carries the members {left} of group A; "
+                                       f"{mk(host)!r}.shadow_of(it) = {got}"))
+    return [dict(key=f"bounded/shadow_of:group-renamed:{k}:{route}", what=w, inputs=dict(platform=platform, route=route, side=side),
+                 cmd=("import sys; sys.path.insert(0, 'props'); import C03\n"
+                      f"fails, _ = C03.check_group_rename({arg!r})\nprint([f['what'] for f in fails]); sys.exit(1 if fails else 0)\n")) for k, w in fails], 1
+
+
 def check_config_row(arg):
     """the same pairs with entries and group members as `acls()` loads them from a device configuration (members attached by the library itself)"""
     import logging
@@ -272,6 +307,13 @@ def bounded_histories(chk):
         for f in fails:
             viol += 1
             chk.finding(f["key"], f["what"], inputs=f["inputs"], cmd=f.get("cmd"), key=f["key"])
+    rcases = [(p, r, sd) for p in ("ios", "nxos") for r in ("ace.line", "addr.line", "addr.line-plain", "ace.line-plain") for sd in ("src", "dst")]
+    for fails, _ in pmap(check_group_rename, rcases):
+        for f in fails:
+            viol += 1
+            chk.finding(f["key"], f["what"], inputs=f["inputs"], cmd=f.get("cmd"), key=f["key"])
+    chk.add_bounded("shadow_of after an entry / its address was pointed at another group or a plain address by reassigning the text", len(rcases), len(rcases),
+                    "4 routes x 2 sides x 2 platforms", 0, 0.0, [list(rcases[0])], exhaustive=True)
     chk.add_bounded("shadow_of before and after in-place edits of address-group members", len(cases), len(cases),
                     "4 ACE pairs with groups x all ordered pairs of 4 member lists x 2 platforms", viol, time.time() - t0, [list(cases[1][1:])], exhaustive=True)
 
